@@ -112,6 +112,7 @@ def run_A(item, rec):
                     nxt = n
                     bads = []
                     tot = 0
+                    chain = {i: tree.get_legs(frozenset([i])) for i in range(n)}
                     for (i, j) in ssa:
                         l, r = tmap.pop(i), tmap.pop(j)
                         p = l | r
@@ -139,11 +140,18 @@ def run_A(item, rec):
                         if c_legs != L:
                             bads.append(z3.BoolVal(True))
                         bads += [term(PB.compute_size(cp.nodes[ck], cp.sizes)) != term(S), term(c_flops) != term(F)]
-                        # annealing's local evaluator
+                        # annealing's local evaluator, on the tree's own child legs ...
                         a_legs, a_cost, a_size = compute_contracted_info(tree.get_legs(l), tree.get_legs(r), tree.appearances, size)
                         if set(a_legs) != L:
                             bads.append(z3.BoolVal(True))
                         bads += [term(a_cost) != term(F), term(a_size) != term(S)]
+                        # ... and CHAINED: fed with its own previous outputs, as annealing does when it
+                        # writes the evaluator's legs into the tree (appearance counts matter here)
+                        c_legs, c_cost, c_size = compute_contracted_info(chain[i], chain[j], tree.appearances, size)
+                        chain[nxt] = c_legs
+                        if set(c_legs) != L or (len(p) != n and dict(c_legs) != dict(tree.get_legs(p))):
+                            bads.append(z3.BoolVal(True))
+                        bads += [term(c_cost) != term(F), term(c_size) != term(S)]
                         nxt += 1
                     bads.append(term(cp.flops) != term(tot))
                     bads.append(term(tree.total_flops()) != term(tot))
@@ -302,6 +310,7 @@ def replay(v):
         hmap = {i: i for i in range(n)}
         cmap = {i: i for i in range(n)}
         nxt = n
+        chain = {i: tree.get_legs(frozenset([i])) for i in range(n)}
         for (i, j) in ssa:
             l, r = tmap.pop(i), tmap.pop(j)
             p = tmap[nxt] = l | r
@@ -316,6 +325,10 @@ def replay(v):
             _, ac, asz = compute_contracted_info(tree.get_legs(l), tree.get_legs(r), tree.appearances, size)
             if len({S, hs, cs, asz}) != 1 or len({F, hc, cf, ac}) != 1:
                 return True, f"step {sorted(p)}: sizes tree/hg/proc/sa = {S},{hs},{cs},{asz}; flops = {F},{hc},{cf},{ac}"
+            cl, cc, csz = compute_contracted_info(chain[i], chain[j], tree.appearances, size)
+            chain[nxt] = cl
+            if set(cl) != set(tree.get_legs(p)) or (len(p) != n and dict(cl) != dict(tree.get_legs(p))) or cc != F or csz != S:
+                return True, f"step {sorted(p)}: annealing evaluator fed with its own outputs gives legs {dict(cl)} cost {cc} size {csz}; tree has legs {dict(tree.get_legs(p))} flops {F} size {S}"
             nxt += 1
         return False, "simulators agree at the model sizes"
     if case["kind"] == "B1":
